@@ -175,6 +175,19 @@ CLAIMS = {
         note=COMMON_NOTE + 'Over binary64 the logical->raw->logical direction is covered by the sweep and the runs, not by a theorem for every float (values that are not images of raw integers move by at most one unit, measured per run).',
         technique='Coq proof over translated definitions (frame lemma, exhaustive reflection, exact-rational chain induction); correspondence runs',
         design='DESIGN.md 7 C14'),
+    'C18': dict(
+        text=('The script ScriptSnapshot.generate writes is modelled as text (snapshot_text) and as the syntax tree that text denotes (snapshot_ast), with the '
+              'device commands the tree means (replay_events). Theorems: for EVERY population with distinct names -- any mix of plain, multizone and '
+              'matrix lights, any zone counts and matrix sizes, any captured values -- and every state the same devices are in at replay time, '
+              'applying replay_events leaves every light, zone and cell in the captured state, and only captured devices are addressed; in raw '
+              'mode registers holding integers in 0..65535 are transmitted unchanged (no conversion, clamping or rounding); a name with any '
+              'characters other than a double quote, written between quotes and followed by the rest of its line, is lexed as one string token '
+              'whose content is the name. Per run, on generated populations: the real generator writes snapshot_text; the real parser accepts it '
+              'and the parser model turns it into snapshot_ast\'s instructions; the reference semantics runs snapshot_ast to exactly '
+              'replay_events; the real Machine replays the script on simulated devices in another state and the state read back equals the capture.'),
+        note=COMMON_NOTE + 'The three links text -> tree -> commands are established per generated population by evaluation inside Coq (and for the lexing of quoted names by a theorem), not by one theorem over all populations; the simulated multizone light has at most 16 zones; power memory is added to the simulated lights by the harness.',
+        technique='Coq proof (induction over populations and zone lists, register lemma, lexer lemma) + per-case evaluation of the three model links + round-trip runs on the real generator, compiler and machine',
+        design='DESIGN.md 7 C18'),
     'C20': dict(
         text=('Model of WebApp/FrontEnd over an abstract job controller with URL resolution in blueprint order; theorems for all manifests and '
               'all request/completion histories: only manifest-listed files are ever handed to the controller, under the entry\'s path; an '
